@@ -1,5 +1,7 @@
 package zz_verif_sim
 
+import "strings"
+
 // Building host schedules by co-simulating the host with the reference model:
 // the host only ever acts on its own view of the runner (READY / CHOOSING /
 // PENDING / ENDED), and every op records what the model expects from it.
@@ -101,6 +103,27 @@ func distribute(tp *Tape, p *Program, l Layout, maxReaders int) []ReaderSpec {
 	var out []ReaderSpec
 	for r := 0; r < nr; r++ {
 		text := renderNodes(p.Nodes[cuts[r]:cuts[r+1]], l, uint64(r))
+		if tp.Chance(30, "readeredges") {
+			// what a file may legally have before its first and after its last node; kept only if the
+			// independent syntax verdict agrees that the file is still valid on its own
+			nl := "\n"
+			if l.CRLF {
+				nl = "\r\n"
+			}
+			pre := []string{"", "#filetag" + nl, "// leading comment" + nl, nl + nl, "#a #b" + nl + nl}[tp.Int(0, 4, "readerprefix")]
+			suf := []string{"", "// trailing comment", "// trailing comment" + nl, "   ", "\t", nl + nl + nl, nl + "  " + nl}[tp.Int(0, 6, "readersuffix")]
+			t2 := text
+			if suf != "" && !strings.HasSuffix(t2, "\n") {
+				t2 += nl
+			}
+			t2 = pre + t2 + suf
+			if verdict([]byte(t2)).Valid {
+				text = t2
+				if gStats != nil {
+					gStats.probe("reader_with_decorated_edges")
+				}
+			}
+		}
 		rs := ReaderSpec{Text: text}
 		drawDelivery(tp, &rs)
 		out = append(out, rs)
